@@ -7,11 +7,11 @@ OUT=seeded/MATRIX_${TIER}_$(echo "$GLOB" | tr -c 'A-Za-z0-9\n' '_').txt
 for d in seeded/$GLOB/; do
   id=$(basename $d); prop=${id%-*}
   patch=$d/patch.diff; [ -f $d/patch_current.diff ] && patch=$d/patch_current.diff
-  res=$(tools/mutcheck.sh $patch $prop $TIER 2>&1 | tail -1)
+  res=$(MUT_SCRATCH=1 tools/mutcheck.sh $patch $prop $TIER 2>&1 | tail -1)
   labels=$(python3 -c "
 import json
 try:
-    e=json.load(open('/verif/evidence/$prop.json')); print(','.join(sorted({v['label'] for v in e['coverage']['violations_reported']})))
+    e=json.load(open('/verif/evidence/$prop.mut.json')); print(','.join(sorted({v['label'] for v in e['coverage']['violations_reported']})))
 except Exception as ex: print('?')")
   echo "$id $res labels=$labels" | tee -a $OUT
 done
